@@ -76,7 +76,7 @@ func (n *EvalUnaryNode) EvalDuration(scope *Scope, executionState ExecutionState
 	if err != nil {
 		return 0, err
 	}
-	if typ == ast.TDuration {
+	if typ == ast.TDuration && n.operator == ast.TokenMinus {
 		result, err := n.nodeEvaluator.EvalDuration(scope, executionState)
 		if err != nil {
 			return 0, err
@@ -85,6 +85,9 @@ func (n *EvalUnaryNode) EvalDuration(scope *Scope, executionState ExecutionState
 		return -1 * result, nil
 	}
 
+	if typ == ast.TDuration {
+		return 0, fmt.Errorf("invalid unary operator %v for type %s", n.operator, typ)
+	}
 	return 0, ErrTypeGuardFailed{RequestedType: ast.TDuration, ActualType: typ}
 }
 
@@ -97,7 +100,7 @@ func (n *EvalUnaryNode) EvalFloat(scope *Scope, executionState ExecutionState) (
 	if err != nil {
 		return 0, err
 	}
-	if typ == ast.TFloat {
+	if typ == ast.TFloat && n.operator == ast.TokenMinus {
 		result, err := n.nodeEvaluator.EvalFloat(scope, executionState)
 		if err != nil {
 			return 0, err
@@ -106,6 +109,9 @@ func (n *EvalUnaryNode) EvalFloat(scope *Scope, executionState ExecutionState) (
 		return -1 * result, nil
 	}
 
+	if typ == ast.TFloat {
+		return 0, fmt.Errorf("invalid unary operator %v for type %s", n.operator, typ)
+	}
 	return 0, ErrTypeGuardFailed{RequestedType: ast.TFloat, ActualType: typ}
 }
 
@@ -114,7 +120,7 @@ func (n *EvalUnaryNode) EvalInt(scope *Scope, executionState ExecutionState) (in
 	if err != nil {
 		return 0, err
 	}
-	if typ == ast.TInt {
+	if typ == ast.TInt && n.operator == ast.TokenMinus {
 		result, err := n.nodeEvaluator.EvalInt(scope, executionState)
 		if err != nil {
 			return 0, err
@@ -123,6 +129,9 @@ func (n *EvalUnaryNode) EvalInt(scope *Scope, executionState ExecutionState) (in
 		return -1 * result, nil
 	}
 
+	if typ == ast.TInt {
+		return 0, fmt.Errorf("invalid unary operator %v for type %s", n.operator, typ)
+	}
 	return 0, ErrTypeGuardFailed{RequestedType: ast.TInt, ActualType: typ}
 }
 
@@ -131,7 +140,7 @@ func (n *EvalUnaryNode) EvalBool(scope *Scope, executionState ExecutionState) (b
 	if err != nil {
 		return false, err
 	}
-	if typ == ast.TBool {
+	if typ == ast.TBool && n.operator == ast.TokenNot {
 		result, err := n.nodeEvaluator.EvalBool(scope, executionState)
 		if err != nil {
 			return false, err
@@ -140,5 +149,8 @@ func (n *EvalUnaryNode) EvalBool(scope *Scope, executionState ExecutionState) (b
 		return !result, nil
 	}
 
+	if typ == ast.TBool {
+		return false, fmt.Errorf("invalid unary operator %v for type %s", n.operator, typ)
+	}
 	return false, ErrTypeGuardFailed{RequestedType: ast.TBool, ActualType: typ}
 }
